@@ -75,7 +75,21 @@ func (g *gen) randomCase(mode int, thoroughPolls bool) Case {
 	if r.Chance(1, 150) {
 		c.Req = nil
 	}
-	c.Ops = append(c.Ops, Step{K: "sub"})
+	writers := (mode == 1 || mode == 2) && r.Chance(1, 6)
+	if writers {
+		// the walk is overlapped by concurrent writers
+		c.Ops = append(c.Ops, Step{K: "sub", Burst: 1})
+		k := 2 + r.Intn(5)
+		for i := 0; i < k; i++ {
+			b := 1
+			if i == k-1 {
+				b = 2
+			}
+			c.Ops = append(c.Ops, g.burstWrite(targets, b))
+		}
+	} else {
+		c.Ops = append(c.Ops, Step{K: "sub"})
+	}
 	if mode == 2 {
 		np := r.Pick(2, 4, 3, 2)
 		if thoroughPolls {
@@ -163,6 +177,15 @@ func gridCases(emit func(Case)) int {
 	return n
 }
 
+func familyOf(base string, c Case) string {
+	for _, o := range c.Ops {
+		if o.Burst != 0 {
+			return base + "-writers"
+		}
+	}
+	return base
+}
+
 func nontrivial(c *Case) bool {
 	if c.R1.Status != "ok" {
 		return false
@@ -180,7 +203,7 @@ func nontrivial(c *Case) bool {
 func main() {
 	o := vh.ParseFlags()
 	quietLogs()
-	meta := vh.NewMeta("corpus cases; grid: one fixed two-target cache (origins, keyed element, atomic container), every ONCE query path over {a,b,*} of length 0..3 x origin placement {none, prefix oc, path oc, prefix foo, first element in the prefix} x target {t1,*}; random: 1-3 targets, 2-10 initial notifications (single/multi update, atomic, delete, keyed elements, origins in prefix or path), one request (ONCE/POLL/few STREAM; 1-3 subscription paths of length 0..3 with globs at any position, origins in prefix/path incl. conflicts, missing path/prefix/target, unknown target, updates_only), POLL: 0-3 triggers with 0-2 cache edits (updates, deletes, target removal) before each. distinct = distinct inputs; non-trivial = the RPC ended OK and at least one update was delivered")
+	meta := vh.NewMeta("corpus cases; grid: one fixed two-target cache (origins, keyed element, atomic container), every ONCE query path over {a,b,*} of length 0..3 x origin placement {none, prefix oc, path oc, prefix foo, first element in the prefix} x target {t1,*}; random: 1-3 targets, 2-10 initial notifications (single/multi update, atomic, delete, keyed elements, origins in prefix or path), one request (ONCE/POLL/few STREAM; 1-3 subscription paths of length 0..3 with globs at any position, origins in prefix/path incl. conflicts, missing path/prefix/target, unknown target, updates_only), POLL: 0-3 triggers with 0-2 cache edits (updates, deletes, target removal) before each; in 1/6 of the ONCE/POLL cases the walk is overlapped by 2-6 concurrent single-update/delete writes (one writer goroutine per target), judged by the weak clause. distinct = distinct inputs; non-trivial = the RPC ended OK and at least one update was delivered")
 	e := &emitter{dir: o.Out, cf: newCaseFile(), meta: meta, limit: 300, require: "Subscribe.C05Check", nontriv: nontrivial}
 
 	if o.Replay != "" {
@@ -229,9 +252,11 @@ func main() {
 		g := newGen(r.Fork())
 		switch g.r.Pick(42, 52, 6) {
 		case 0:
-			e.add("random-once", g.randomCase(1, o.Thorough()))
+			c := g.randomCase(1, o.Thorough())
+			e.add(familyOf("random-once", c), c)
 		case 1:
-			e.add("random-poll", g.randomCase(2, o.Thorough()))
+			c := g.randomCase(2, o.Thorough())
+			e.add(familyOf("random-poll", c), c)
 		default:
 			m := 0
 			if g.r.Chance(1, 4) {
